@@ -49,9 +49,13 @@ impl Policy {
     #[verifier::external_body] pub fn env(&self) -> (r: &SlotEnv) ensures *r == self.spec_env() { unimplemented!() }
     /// assumed: the constructed policy carries the given effect and id
     #[verifier::external_body] pub fn from_when_clause_annos(effect: Effect, when: Arc<Expr>, id: PolicyID, loc: Option<Loc>, annotations: Arc<Annotations>) -> (r: Policy)
-        ensures r.spec_effect() == effect, r.spec_id() == id
+        ensures r.spec_effect() == effect, r.spec_id() == id, r.spec_condition() == when_cond(*when), r.spec_env() == empty_env()
     { unimplemented!() }
 }
+/// the condition the authorizer evaluates for a policy built by `from_when_clause_annos` (unconstrained scope && when-clause): uninterpreted
+pub uninterp spec fn when_cond(when: Expr) -> Expr;
+/// the slot environment of a static policy
+pub uninterp spec fn empty_env() -> SlotEnv;
 impl PolicySet {
     /// the policies of the set in *some* enumeration order (uninterpreted)
     pub uninterp spec fn policy_seq(&self) -> Seq<&Policy>;
@@ -72,5 +76,49 @@ impl<'e> Evaluator<'e> {
     /// assumed contract: the oracle (units eval_node prove the evaluator against the language semantics)
     #[verifier::external_body] pub fn partial_interpret(&self, expr: &Expr, slots: &SlotEnv) -> (r: Result<PartialValue>)
         ensures r == pinterp(self, *expr, *slots)
+    { unimplemented!() }
+}
+
+// ---- additions for PartialResponse::reauthorize (C13) ----
+#[verifier::external_body] pub struct PolicySetError { _p: u8 }
+#[verifier::external_body] pub struct ConcretizationError { _p: u8 }
+#[verifier::external_body] pub struct ReauthorizationError { _p: u8 }
+impl From<PolicySetError> for ReauthorizationError { #[verifier::external_body] fn from(e: PolicySetError) -> (r: Self) { unimplemented!() } }
+impl From<ConcretizationError> for ReauthorizationError { #[verifier::external_body] fn from(e: ConcretizationError) -> (r: Self) { unimplemented!() } }
+#[verifier::external_body] pub struct SmolStr { _p: u8 }
+/// the boxed unknowns mapper of an Evaluator (a `Box<dyn Fn(&str) -> Option<Value>>` in the code)
+#[verifier::external_body] pub struct UnknownsMapper<'e> { _p: &'e u8 }
+/// what a `HashMap<SmolStr, Value>` answers for a `&str` key (Borrow-based lookup): uninterpreted
+pub uninterp spec fn str_lookup(m: HashMap<SmolStr, Value>, k: &str) -> Option<Value>;
+/// model of `mapping.get(name).cloned()` for a `&str` key
+#[verifier::external_body] pub fn vx_map_get_str_cloned(m: &HashMap<SmolStr, Value>, k: &str) -> (r: Option<Value>) ensures r == str_lookup(*m, k) { unimplemented!() }
+/// the mapper that answers every unknown name with the mapping's entry
+pub uninterp spec fn mapper_of<'e>(m: HashMap<SmolStr, Value>) -> UnknownsMapper<'e>;
+/// model of `Box::new(closure)`: the closure handed over must answer exactly the mapping's lookup (checked at the call site)
+#[verifier::external_body] pub fn vx_box_mapper<'e, F: Fn(&str) -> Option<Value>>(f: F, Ghost(m): Ghost<HashMap<SmolStr, Value>>) -> (r: UnknownsMapper<'e>)
+    requires forall|n: &str| f.requires((n,)), forall|n: &str, o: Option<Value>| f.ensures((n,), o) ==> o == str_lookup(m, n)
+    ensures r == mapper_of::<'e>(m)
+{ unimplemented!() }
+pub uninterp spec fn spec_with_mapper<'e>(ev: Evaluator<'e>, m: UnknownsMapper<'e>) -> Evaluator<'e>;
+impl<'e> Evaluator<'e> {
+    /// assumed: the evaluator with its unknowns mapper replaced (struct update in the code)
+    #[verifier::external_body] pub fn with_unknowns_mapper(self, m: UnknownsMapper<'e>) -> (r: Self) ensures r == spec_with_mapper(self, m) { unimplemented!() }
+}
+/// `items` and the policies of `ps` are the same policies (in any order)
+pub open spec fn same_policies(ps: Seq<&Policy>, items: Seq<Policy>) -> bool {
+    (forall|i: int| 0 <= i < ps.len() ==> exists|j: int| 0 <= j < items.len() && *(#[trigger] ps[i]) == #[trigger] items[j])
+    && (forall|j: int| 0 <= j < items.len() ==> exists|i: int| 0 <= i < ps.len() && *(#[trigger] ps[i]) == #[trigger] items[j])
+}
+impl PolicySet {
+    /// assumed (PolicySet construction is the subject of C08): success gives a set with pairwise distinct ids holding exactly the given policies
+    #[verifier::external_body] pub fn try_from_iter(it: VxIter<Policy>) -> (r: std::result::Result<PolicySet, PolicySetError>)
+        ensures r matches Ok(ps) ==> ps.distinct_ids() && same_policies(ps.policy_seq(), it.items())
+    { unimplemented!() }
+}
+pub uninterp spec fn spec_concretize_request(pr: PartialResponse, m: HashMap<SmolStr, Value>) -> std::result::Result<Request, ConcretizationError>;
+impl PartialResponse {
+    /// assumed (watched): the concretized request is an uninterpreted function of the response's request and the mapping
+    #[verifier::external_body] pub fn concretize_request(&self, mapping: &HashMap<SmolStr, Value>) -> (r: std::result::Result<Request, ConcretizationError>)
+        ensures r == spec_concretize_request(*self, *mapping)
     { unimplemented!() }
 }
